@@ -39,6 +39,15 @@ func c15Rebind(c *core.Ctx) {
 		for len(b.Tables) < 2 {
 			b.Tables = append(b.Tables, b.RandTable(uint64(300+len(b.Tables)), "dbx", fmt.Sprintf("x%d", len(b.Tables)), 1+r.Intn(5)))
 		}
+		if idx%4 == 1 {
+			// names that differ in letter case only (distinct tables on a
+			// case-sensitive server)
+			variants := [][2]string{{"shop", "orders"}, {"shop", "Orders"}, {"Shop", "orders"}, {"SHOP", "ORDERS"}, {"shop", "oRDERS"}}
+			for i, t := range b.Tables {
+				t.DB, t.Name = variants[i%len(variants)][0], variants[i%len(variants)][1]
+			}
+			c.Cell("stream:id-rebound-to-name-differing-in-case-only")
+		}
 		kinds := []hist.UnitKind{hist.TxXID, hist.TxCommit, hist.AutoRows, hist.TxXID}
 		for i := 0; i < 2+r.Intn(3); i++ {
 			b.Add(kinds[r.Intn(len(kinds))])
